@@ -65,6 +65,9 @@ def rsa_key(tag):
     return _keys[k]
 
 
+_PKI_CACHE = {}
+
+
 class PKI:
     """root -> n intermediates -> leaf; every knob the chain-fault catalogue needs."""
 
@@ -73,14 +76,21 @@ class PKI:
         self.tag = tag
         self.root_key = ec_key(f"{tag}_root")
         self.root_name = name(root_cn)
-        self.root = make_cert(self.root_name, self.root_name, self.root_key.public_key(), self.root_key, nb=root_nb, na=root_na, ca=True, serial=4242)
+        # certificates are cached per parameter set so that equal PKIs are byte-identical within a run
+        rk = ("root", tag, root_cn, root_nb, root_na)
+        if rk not in _PKI_CACHE:
+            _PKI_CACHE[rk] = make_cert(self.root_name, self.root_name, self.root_key.public_key(), self.root_key, nb=root_nb, na=root_na, ca=True, serial=4242)
+        self.root = _PKI_CACHE[rk]
         self.inters = []
         self.inter_keys = []
         issuer_name, issuer_key = self.root_name, self.root_key
         for i in range(n_inter):
             k = ec_key(f"{tag}_inter{i}")
             nm = name(f"Forged Intermediate {i}")
-            c = make_cert(nm, issuer_name, k.public_key(), issuer_key, nb=inter_nb, na=inter_na, ca=(True if inter_ca else False))
+            ik = ("inter", tag, root_cn, i, inter_nb, inter_na, inter_ca)
+            if ik not in _PKI_CACHE:
+                _PKI_CACHE[ik] = make_cert(nm, issuer_name, k.public_key(), issuer_key, nb=inter_nb, na=inter_na, ca=(True if inter_ca else False), serial=5000 + i)
+            c = _PKI_CACHE[ik]
             self.inters.append(c)
             self.inter_keys.append(k)
             issuer_name, issuer_key = nm, k
